@@ -90,6 +90,29 @@ IfftOK(e) ==
               \A p \in 0..(e.size - 1) : FFTSpec(c, e.size, e.delta, p) = io[1][e.pos + p + 1]
 
 (***************************************************************************)
+(* impulse: transforms of any size through impulse responses.  The FFT of  *)
+(* the coefficient vector v * e_i is  v * X_i(skew_delta + p)  at output p *)
+(* (p < truncated_size); the IFFT of those values (all of them, checked    *)
+(* here against the same formula) is the impulse again.  Both slots 0 and  *)
+(* 31 carry the same impulse.                                              *)
+(***************************************************************************)
+ImpulseVal(e, p) == Mul(e.v, XLin(e.i, e.delta ^^ p))
+ImpulseOK(e) ==
+  /\ ~Has(e, "fail") /\ e.engine \in Engines /\ e.i < e.size
+  /\ Len(e.out0) = e.nsh /\ Len(e.out1) = e.nsh
+  /\ IF e.prim = "fft"
+     THEN \A q \in 1..e.nsh :
+            IF q > e.pos /\ q <= e.pos + e.size
+            THEN (q - e.pos - 1 < e.trunc) => (e.out0[q] = ImpulseVal(e, q - e.pos - 1) /\ e.out1[q] = e.out0[q])
+            ELSE e.out0[q] = 0 /\ e.out1[q] = 0                                   \* nothing outside the range is touched
+     ELSE /\ e.trunc = e.size
+          /\ \A q \in 1..e.nsh :
+                IF q > e.pos /\ q <= e.pos + e.size
+                THEN /\ e.in0[q] = ImpulseVal(e, q - e.pos - 1)                    \* the input really is the value vector
+                     /\ e.out0[q] = (IF q - e.pos - 1 = e.i THEN e.v ELSE 0) /\ e.out1[q] = e.out0[q]
+                ELSE e.out0[q] = 0 /\ e.out1[q] = 0
+
+(***************************************************************************)
 (* eval_poly                                                               *)
 (***************************************************************************)
 SeqSet(s) == {s[t] : t \in DOMAIN s}
@@ -125,6 +148,7 @@ EventOK(e) ==
     [] e.ev = "mul"      -> MulOK(e)
     [] e.ev = "fft"      -> FftOK(e)
     [] e.ev = "ifft"     -> IfftOK(e)
+    [] e.ev = "impulse"  -> ImpulseOK(e)
     [] e.ev = "evalpoly" -> EvalOK(e)
     [] e.ev = "xcase"    -> XcaseOK(e)
     [] OTHER -> FALSE
